@@ -57,12 +57,25 @@ def absR (q : Rat) : Rat := if q < 0 then -q else q
 /-- is `q` a binary fraction (then a float holds it exactly, and sums of a few such values are exact)? -/
 def isDyadic (q : Rat) : Bool := q.den.log2 ≤ 40 && q.den == 2 ^ q.den.log2
 
+/-- some factor of the running product is tiny but not zero (`< 1e-6`): in floats it is the result of a
+catastrophic cancellation (`u - eta_j` with `eta_j` within ulps of `u`, `1 - lam_j mu_j` with the bet at its
+cap `c/mu_j`, `c = 1 - eps`), its relative error can reach 50%, and every later entry inherits it -/
+def tinyFactor (cfg : Cfg) (test : Test) (pop : List Rat) : Bool :=
+  let raw : List XR := match test with
+    | .alpha e => (match alphaTerms cfg (estim sqrtRat cfg e) pop with | .ok (_, _, T) => T | .error _ => [])
+    | .betting b => (match bettingTerms cfg (bet sqrtRat cfg b) pop with | .ok (_, _, T) => T | .error _ => [])
+    | _ => []
+  ((XR.fin 1 :: raw).zip raw).any fun (a, b) =>
+    match a, b with
+    | .fin p, .fin q => p ≠ 0 && q ≠ 0 && absR q < absR p / 1000000
+    | _, _ => false
+
 /-- diagnostic for the harness (`fragile`): does a branch decision of the float code sit within relative
 distance `tol` of its threshold on some population the estimate runs the test on?  Checked: a history
 entry against `alpha` (`p <= alpha`), a null mean against 0 and against the `isclose(u, m)` edge, the
 sample total against `N t`. -/
 def nearEdge (cfg : Cfg) (test : Test) (x : List Rat) (alpha : Rat) (reps : Option (List (List Rat)))
-    (pfx : Bool) (tol : Rat) : Bool :=
+    (pfx : Bool) (tol : Rat) (exactOk : Bool := true) : Bool :=
   match cfg.N with
   | none => false
   | some n =>
@@ -74,7 +87,7 @@ def nearEdge (cfg : Cfg) (test : Test) (x : List Rat) (alpha : Rat) (reps : Opti
         | .error _ => false
         | .ok (_, hist) => hist.any fun h =>
             match h with
-            | .fin p => absR (p - alpha) ≤ tol * absR alpha && p ≠ alpha
+            | .fin p => absR (p - alpha) ≤ tol * absR alpha   -- incl. p = alpha: the float may land on either side
             | _ => false
       let g := cfg.kw.g.getD 0
       let (t', pop') := match test with
@@ -84,14 +97,14 @@ def nearEdge (cfg : Cfg) (test : Test) (x : List Rat) (alpha : Rat) (reps : Opti
         | .error _ => false
         | .ok (_, Stot, m) =>
           -- equalities that hold exactly may fail in floats unless every value is a binary fraction
-          let exact := pop'.all isDyadic && isDyadic t'
+          let exact := exactOk && pop'.all isDyadic && isDyadic t'
           let exactU := exact && isDyadic cfg.u
           (m.any fun mj =>
             (absR mj ≤ tol && (mj ≠ 0 || !exact))
             || absR (absR (cfg.u - mj) - (cfg.atol + cfg.rtol * absR mj)) ≤ tol * (if absR mj < 1 then 1 else absR mj)
             || (absR (cfg.u - mj) ≤ tol && (mj ≠ cfg.u || !exactU)))
           || (absR (Stot - (n : Rat) * t') ≤ tol && (Stot ≠ (n : Rat) * t' || !exact))
-      histNear || mNear
+      histNear || mNear || tinyFactor cfg test pop
 
 def jRats (l : List Rat) : Json := jArr (l.map jRat)
 
@@ -105,6 +118,9 @@ def popOf (asn : Assertion) (data : Option (List Rat)) (r1 r2 : Option Rat) : Op
 
 def handle (op : String) (a : Json) : R Json := do
   let tol := (← optRat a "tol").getD (1 / 1000000000)
+  -- `exact_ok = false`: the harness knows that the float population is not exactly the model's (its values come
+  -- from inexact float operations), so exact equalities of the model need not hold in the code
+  let exactOk := (← optF a "exact_ok" asBool).getD true
   match op with
   | "interleave" =>
       match interleaveValues (← intF a "n_small") (← intF a "n_med") (← intF a "n_big")
@@ -125,7 +141,7 @@ def handle (op : String) (a : Json) : R Json := do
       let pop := popOf asn data r1 r2
       let tails := resolve (pop.getD []) (← parseTails a "tails")
       let near := match pop with
-        | some x => nearEdge asn.cfg asn.test x asn.riskLimit tails pfx tol
+        | some x => nearEdge asn.cfg asn.test x asn.riskLimit tails pfx tol exactOk
         | none => false
       match assertionFindSampleSize sqrtRat asn data pfx r1 r2 tails q with
       | .ok n => pure (jOk [("n", jNat n), ("pop", jRats (pop.getD [])), ("near", Json.bool near)])
@@ -137,7 +153,7 @@ def handle (op : String) (a : Json) : R Json := do
       let pfx ← boolF a "prefix"
       let q ← ratF a "quantile"
       let tails := resolve x (← parseTails a "tails")
-      let near := nearEdge cfg test x alpha tails pfx tol
+      let near := nearEdge cfg test x alpha tails pfx tol exactOk
       match sampleSize sqrtRat cfg test x alpha tails pfx q with
       | .ok n => pure (jOk [("n", jNat n), ("near", Json.bool near)])
       | .error e => pure (jErr e.toStr)
@@ -164,7 +180,7 @@ def handle (op : String) (a : Json) : R Json := do
       let near := (raw.zip items).any fun (r, it) =>
         let (data, pf, q1, q2) := callOf r
         match popOf it.a data q1 q2 with
-        | some x => nearEdge it.a.cfg it.a.test x it.a.riskLimit it.tails pf tol
+        | some x => nearEdge it.a.cfg it.a.test x it.a.riskLimit it.tails pf tol exactOk
         | none => false
       let f := if op = "contest" then contestFindSampleSize else auditContestNewSize
       match f sqrtRat ctype hasMvr items r1 r2 q with
@@ -185,7 +201,7 @@ def handle (op : String) (a : Json) : R Json := do
       let pop := match setup with | .ok (_, _, x) => x | .error _ => []
       let tails := resolve pop (← parseTails a "tails")
       let near := match setup with
-        | .ok (cfg, test, x) => nearEdge cfg test x rlimit tails false tol
+        | .ok (cfg, test, x) => nearEdge cfg test x rlimit tails false tol exactOk
         | .error _ => false
       match raireSampleSize sqrtRat mean tw tl to r1 r2 rlimit tails n ub polling with
       | .ok k => pure (jOk [("n", jNat k), ("pop", jRats pop), ("near", Json.bool near)])
